@@ -38,6 +38,7 @@ import (
 	"fmt"
 	"hash/crc32"
 	"strconv"
+	"strings"
 	"time"
 
 	"github.com/XiaoMi/Gaea/core/errors"
@@ -237,7 +238,7 @@ func (s *DateYearShard) EqualStart(key interface{}, index int) bool {
 		return false
 	}
 
-	return numYear == index
+	return numYear == index && isPeriodStart(key, 'y')
 }
 
 type DateMonthShard struct {
@@ -298,7 +299,7 @@ func (s *DateMonthShard) EqualStart(key interface{}, index int) bool {
 		return false
 	}
 
-	return numYear == index
+	return numYear == index && isPeriodStart(key, 'm')
 }
 
 type DateDayShard struct {
@@ -359,7 +360,7 @@ func (s *DateDayShard) EqualStart(key interface{}, index int) bool {
 		return false
 	}
 
-	return numYear == index
+	return numYear == index && isPeriodStart(key, 'd')
 }
 
 type DefaultShard struct {
@@ -378,4 +379,58 @@ func (s *GlobalTableShard) FindForKey(key interface{}) (int, error) {
 
 func NewGlobalTableShard() *GlobalTableShard {
 	return &GlobalTableShard{}
+}
+
+// isPeriodStart reports whether key denotes the first instant of its calendar
+// period (unit 'y', 'm' or 'd'). Only then may a "< key" condition skip the
+// table of the period key falls in. A key that is not recognised is reported
+// as false, which only makes the routing wider.
+func isPeriodStart(key interface{}, unit byte) bool {
+	var tm time.Time
+	switch val := key.(type) {
+	case int:
+		tm = time.Unix(int64(val), 0)
+	case uint64:
+		tm = time.Unix(int64(val), 0)
+	case int64:
+		tm = time.Unix(val, 0)
+	case string:
+		return isPeriodStartString(val, unit)
+	default:
+		return false
+	}
+	if tm.Hour() != 0 || tm.Minute() != 0 || tm.Second() != 0 {
+		return false
+	}
+	if unit == 'd' {
+		return true
+	}
+	if tm.Day() != 1 {
+		return false
+	}
+	return unit == 'm' || tm.Month() == time.January
+}
+
+// isPeriodStartString handles the 'YYYY-MM-DD' and 'YYYY-MM-DD 00:00:00[.000]' spellings.
+func isPeriodStartString(val string, unit byte) bool {
+	if len(val) < 10 {
+		return false
+	}
+	if rest := val[10:]; rest != "" {
+		if !strings.HasPrefix(rest, " 00:00:00") {
+			return false
+		}
+		if frac := rest[9:]; frac != "" {
+			if frac[0] != '.' || strings.Trim(frac[1:], "0") != "" {
+				return false
+			}
+		}
+	}
+	if unit == 'd' {
+		return true
+	}
+	if val[8:10] != "01" {
+		return false
+	}
+	return unit == 'm' || val[5:7] == "01"
 }
